@@ -2,6 +2,7 @@ package gen
 
 import (
 	"math/big"
+	"strconv"
 	"strings"
 )
 
@@ -87,6 +88,26 @@ func (g *G) targetResult(p int) string {
 // Round generates the C01/C02 programs: n cases of Add/Sub/Mul/Quo/Set/SetPrec/Neg/Abs.
 func Round(g *G, n int) []Program {
 	var out []Program
+	// every branch the evidence must show, once per mode and sign, whatever the seed draws afterwards: results that leave
+	// the exponent range through each of the four operations (by cancellation for sums)
+	for m := 0; m < 6; m++ {
+		for _, neg := range []bool{false, true} {
+			for _, c := range [][5]string{
+				{"Add", "11", "-2147483648", "10", "-2147483648"}, // y gets the other sign below: the difference underflows
+				{"Mul", "5", "2147483647", "5", "10"}, {"Mul", "5", "-2147483648", "5", "-10"},
+				{"Quo", "5", "2147483647", "5", "-10"}, {"Quo", "5", "-2147483648", "5", "10"},
+				{"Sub", "123456", "3", "1234", "1"}, {"Add", "999999", "0", "9", "-5"},
+			} {
+				ex, _ := strconv.ParseInt(c[2], 10, 64)
+				ey, _ := strconv.ParseInt(c[4], 10, 64)
+				g.Load("r0", neg, c[1], ex, 0, g.Mode())
+				g.Load("r1", neg != (c[0] == "Add" && c[1] == "11"), c[3], ey, 0, g.Mode())
+				g.Receiver("r2", 5, m)
+				g.Emit(M{"op": c[0], "z": "r2", "x": "r0", "y": "r1"})
+			}
+		}
+		out = append(out, g.Flush("round"))
+	}
 	for i := 0; i < n; i++ {
 		p, m := g.Prec(), g.Mode()
 		switch k := g.R.Intn(100); {
